@@ -448,3 +448,27 @@ PROPS["C23"] = dict(
     floor=300,
     stages=[Stage("c23", pkg="mon_stark", variant="rel"), Stage("c23", pkg="mon_stark", variant="chk", args=["--maxlogn", "7", "--n", "60"])],
 )
+
+PROPS["C28"] = dict(
+    level="exploration",
+    rule="random coefficient matrices (1..20 columns incl. counts not divisible by the segment width, polynomial size 2^3..2^9 "
+         "(thorough 2^11), blowup 2..16, segment width N in {1,2,4,8}, base / quadratic / cubic elements over 3 fields, "
+         "generator and random domain offsets): RowMatrix::evaluate_polys and evaluate_polys_over rows vs each column "
+         "polynomial evaluated in reference arithmetic at offset*g^row (all rows for domains <= 256, 48 rows above incl. "
+         "around 1024); ColMatrix::evaluate_columns_over equals the row-major result cell by cell; interpolate_columns "
+         "reproduces the values; RowMatrix::commit_to_rows root for (1,1) and 3 random partition settings and "
+         "ColMatrix::commit_to_rows root vs a Merkle tree over row digests computed by the documented partition rule; "
+         "serial, overflow-check and concurrent builds (2 / 6 thread counts) with output digests compared offline; TSan; "
+         "distinct = (instantiation, shape)",
+    assumptions=["the partition size formula in the harness follows the documentation of PartitionOptions (its agreement with the "
+                 "verifier's rule end to end is C01's partition axis)",
+                 "MerkleTree::new and the hashers are C18 / C15 / C16's subjects"],
+    floor=50,
+    post=compare_digests,
+    stages=[Stage("c28", pkg="mon_stark", variant="rel", args=["--n", "160"], tiers=("quick",)),
+            Stage("c28", pkg="mon_stark", variant="rel", tiers=("thorough",), timeout=(900, 7200)),
+            Stage("c28", pkg="mon_stark", variant="chk", args=["--n", "60"])]
+           + [Stage("c28", pkg="mon_stark", variant="par", threads=t, args=["--n", "160"], tiers=("quick",)) for t in (3, 16)]
+           + [Stage("c28", pkg="mon_stark", variant="par", threads=t, tiers=("thorough",), timeout=(900, 7200)) for t in (1, 2, 3, 5, 8, 16)]
+           + [Stage("c28", pkg="mon_stark", kind="tsan", threads=6, args=["--n", "30", "--maxlog", "10"], timeout=(900, 1800))],
+)
